@@ -5,6 +5,7 @@ verus! {
 //@INCLUDE prelude_object.rs
 //@INCLUDE opcodes.rs
 //@INCLUDE prelude_compiler.rs
+//@INCLUDE genpost_lemmas.rs
 
 pub open spec fn byte_jump() -> u8 { opcode_byte(OpCode::Jump) }
 pub open spec fn byte_jif() -> u8 { opcode_byte(OpCode::JumpIfFalse) }
@@ -113,8 +114,17 @@ impl Compiler {
                 &&& final(self).loop_contexts@[last].break_instructions@ == old(self).loop_contexts@[last].break_instructions@.push((n + 1) as usize)
                 &&& (forall|i: int| 0 <= i < last ==> final(self).loop_contexts@[i] == old(self).loop_contexts@[i])
             }),
+            r is Ok ==> gen_post(*old(self), *final(self), true),
     {
 //@ARM file=compiler.rs fn=compile_statement impl=Compiler arm="Stmt::Break" rules="R1;R4"
+        proof {
+            let n = old(self).loop_contexts@.len() as int;
+            let n0 = old(self).instructions@.len() as int;
+            assert(self.instructions@ =~= old(self).instructions@ + seq![opcode_byte(OpCode::Null), byte_jump()] + le16(JUMP_PLACEHOLDER as int));
+            assert(breaks(*self, n - 1).subrange(0, breaks(*old(self), n - 1).len() as int) =~= breaks(*old(self), n - 1));
+            assert(break_ok(*self, n0 + 1));
+            assert forall|i: int| 0 <= i < n - 1 implies #[trigger] breaks(*self, i) == breaks(*old(self), i) by { assert(self.loop_contexts@[i] == old(self).loop_contexts@[i]); }
+        }
         Ok(())
     }
 
@@ -128,8 +138,14 @@ impl Compiler {
             (old(self).loop_contexts@.len() > 0 && old(self).loop_contexts@.last().start <= 0xFFFF) ==> (r is Ok
                 && final(self).instructions@ =~= old(self).instructions@ + seq![opcode_byte(OpCode::Null), byte_jump()] + le16(old(self).loop_contexts@.last().start as int)),
             final(self).loop_contexts == old(self).loop_contexts,
+            r is Ok ==> gen_post(*old(self), *final(self), true),
     {
 //@ARM file=compiler.rs fn=compile_statement impl=Compiler arm="Stmt::Continue" rules="R1;R4;R12"
+        proof {
+            let n0 = old(self).instructions@.len() as int;
+            assert(self.instructions@ =~= old(self).instructions@ + self.instructions@.subrange(n0, n0 + 4));
+            lemma_gen_post_append(*old(self), *self, self.instructions@.subrange(n0, n0 + 4));
+        }
         Ok(())
     }
 
@@ -143,15 +159,21 @@ impl Compiler {
         requires gen_inv(*old(self))
         ensures
             //@VACUITY
-            is_prefix(old(self).instructions@, final(self).instructions@),
-            final(self).loop_contexts@.len() == old(self).loop_contexts@.len(),
+            r is Ok ==> is_prefix(old(self).instructions@, final(self).instructions@),
+            r is Ok ==> final(self).loop_contexts@.len() == old(self).loop_contexts@.len(),
             r is Ok ==> if_log(*old(self), *final(self), **condition, consequence@, *alternative),
             r is Ok ==> if_jumps(*old(self), *final(self), consequence@, *alternative),
             r is Ok ==> final(self).instructions@.len() <= 0xFFFF,
+            r is Ok ==> gen_post(*old(self), *final(self), true),
     {
 //@GHOST after="self.compile_expression(condition)?;" let ghost s_cond = *self;
+//@GHOST before="self.compile_block_statement(consequence)?;" let ghost e1 = *self;
 //@GHOST after="self.compile_block_statement(consequence)?;" let ghost s_cons = *self;
-//@GHOST after="self.change_jump_operand_at(pos_jump_if_false, to_u16(self.instructions.len())?);" let ghost s_mid = *self;
+//@GHOST before="let pos_jump = self.instructions.len();" let ghost r1 = *self;
+//@GHOST before="self.change_jump_operand_at(pos_jump_if_false, to_u16(self.instructions.len())?);" let ghost e2 = *self;
+//@GHOST after="self.change_jump_operand_at(pos_jump_if_false, to_u16(self.instructions.len())?);" let ghost s_mid = *self; let ghost mut s_alt = *self;
+//@GHOST after="self.compile_block_statement(alternative)?;" proof { s_alt = *self; }
+//@GHOST before="self.change_jump_operand_at(pos_jump, to_u16(self.instructions.len())?);" let ghost s_pre = *self;
 //@ARM file=compiler.rs fn=compile_expression impl=Compiler arm="Expr::If" rules="R1;R4"
         proof {
             // ghost hints only (erased): the witness for the Jump position is the arm's own local `pos_jump`; the
@@ -173,6 +195,9 @@ impl Compiler {
             assert(code[pj] == byte_jump());
             assert(u16_at(code, pos_jump_if_false as int + 1) == pj + 3);
             assert(u16_at(code, pj + 1) == code.len());
+
+            // ---- the arm meets the generator contract it assumes of its callees (gen_post) ----
+            lemma_if_gen_post(*old(self), s_cond, e1, s_cons, r1, e2, s_mid, s_alt, s_pre, *self, alternative is Some);
         }
         Ok(())
     }
@@ -187,8 +212,9 @@ impl Compiler {
         requires gen_inv(*old(self))
         ensures
             //@VACUITY
-            is_prefix(old(self).instructions@, final(self).instructions@),
+            r is Ok ==> is_prefix(old(self).instructions@, final(self).instructions@),
             r is Ok ==> while_post(*old(self), *final(self), **condition, body@),
+            r is Ok ==> gen_post(*old(self), *final(self), true),
     {
 //@GHOST after="LoopContext::new(self.instructions.len()));" let ghost s0 = *self;
 //@GHOST after="self.compile_expression(condition)?;" let ghost s_cond = *self;
@@ -196,8 +222,8 @@ impl Compiler {
 //@GHOST after="self.emit_opcode(OpCode::Pop);" let ghost s_pre = *self;
 //@GHOST after="self.compile_block_statement(body)?;" let ghost s_body = *self; proof { let m = s_body.loop_contexts@.len() - 1; assert(m == old(self).loop_contexts@.len()); assert(breaks(s_pre, m) == breaks(s_cond, m)); assert(s_pre.instructions@.len() == pos_jump_if_false + 4); assert forall|j: int| 0 <= j < breaks(s_body, m).len() implies stop_ok(s_body, old(self).instructions@.len() as int, pos_jump_if_false as int, #[trigger] breaks(s_body, m)[j] as int) by { let b0 = breaks(s_pre, m); let b1 = breaks(s_body, m); if j < b0.len() { assert(b1.subrange(0, b0.len() as int)[j] == b0[j]); assert(break_ok(s_cond, b0[j] as int)); assert(s_pre.instructions@[b0[j] as int] == s_cond.instructions@[b0[j] as int]); } else { assert(break_ok(s_body, b1[j] as int)); } } assert forall|j: int, k: int| 0 <= j < k < breaks(s_body, m).len() implies #[trigger] breaks(s_body, m)[j] + 3 <= #[trigger] breaks(s_body, m)[k] by { let b0 = breaks(s_pre, m); let b1 = breaks(s_body, m); if j < b0.len() { assert(b1.subrange(0, b0.len() as int)[j] == b0[j]); assert(break_ok(s_cond, b0[j] as int)); if k < b0.len() { assert(b1.subrange(0, b0.len() as int)[k] == b0[k]); } } } }
 //@GHOST after="self.emit_u16(to_u16(pos_before_condition)?);" let ghost s_jump = *self;
-//@PRELOOP 1 let ghost stops = __v@; let ghost len_final = self.instructions@.len() as int; let ghost n0 = old(self).instructions@.len() as int; let ghost pc = pos_jump_if_false as int; let ghost log_after_body = self.log@; proof { assert(stops == breaks(s_body, s_body.loop_contexts@.len() - 1)); assert(self.loop_contexts@ =~= s_jump.loop_contexts@.drop_last()); assert forall|i: int| 0 <= i < old(self).loop_contexts@.len() implies #[trigger] self.loop_contexts@[i].start == old(self).loop_contexts@[i].start && breaks(*self, i) == breaks(*old(self), i) by { assert(s0.loop_contexts@[i] == old(self).loop_contexts@[i]); assert(s_cond.loop_contexts@[i].start == s0.loop_contexts@[i].start); assert(breaks(s_cond, i) == breaks(s0, i)); assert(s_body.loop_contexts@[i].start == s_pre.loop_contexts@[i].start); assert(breaks(s_body, i) == breaks(s_pre, i)); assert(s_jump.loop_contexts@[i] == s_body.loop_contexts@[i]); } assert forall|j: int| 0 <= j < stops.len() implies stop_final(*self, n0, pc, len_final, #[trigger] stops[j] as int) by { assert(stop_ok(s_body, n0, pc, stops[j] as int)); assert(s_jump.instructions@[stops[j] as int] == s_body.instructions@[stops[j] as int]); } }
-//@LOOP 1 invariant __v@ == stops, n0 == old(self).instructions@.len(), while_log(*old(self), log_after_body, pc, **condition, body@), self.instructions@.len() == len_final, len_final <= 0xFFFF, same_loops(*self, *old(self)), self.log@ == log_after_body, self.last_instruction == Some(OpCode::Jump), is_prefix(old(self).instructions@, self.instructions@), n0 < pc, pc + 4 <= len_final - 3, self.instructions@[n0] == opcode_byte(OpCode::Null), self.instructions@[pc] == byte_jif(), u16_at(self.instructions@, pc + 1) == len_final, self.instructions@[pc + 3] == opcode_byte(OpCode::Pop), self.instructions@[len_final - 3] == byte_jump(), u16_at(self.instructions@, len_final - 2) == n0 + 1, forall|j: int| 0 <= j < stops.len() ==> stop_final(*self, n0, pc, len_final, #[trigger] stops[j] as int), forall|j: int, k: int| 0 <= j < k < stops.len() ==> #[trigger] stops[j] + 3 <= #[trigger] stops[k], forall|j: int| 0 <= j < __it.index@ ==> u16_at(self.instructions@, #[trigger] stops[j] as int + 1) == len_final,
+//@PRELOOP 1 let ghost stops = __v@; let ghost len_final = self.instructions@.len() as int; let ghost n0 = old(self).instructions@.len() as int; let ghost pc = pos_jump_if_false as int; let ghost log_after_body = self.log@; proof { assert(stops == breaks(s_body, s_body.loop_contexts@.len() - 1)); assert(self.loop_contexts@ =~= s_jump.loop_contexts@.drop_last()); assert forall|i: int| 0 <= i < old(self).loop_contexts@.len() implies #[trigger] self.loop_contexts@[i].start == old(self).loop_contexts@[i].start && breaks(*self, i) == breaks(*old(self), i) by { assert(s0.loop_contexts@[i] == old(self).loop_contexts@[i]); assert(s_cond.loop_contexts@[i].start == s0.loop_contexts@[i].start); assert(breaks(s_cond, i) == breaks(s0, i)); assert(s_body.loop_contexts@[i].start == s_pre.loop_contexts@[i].start); assert(breaks(s_body, i) == breaks(s_pre, i)); assert(s_jump.loop_contexts@[i] == s_body.loop_contexts@[i]); } assert forall|j: int| 0 <= j < stops.len() implies stop_final(*self, n0, pc, len_final, #[trigger] stops[j] as int) by { assert(stop_ok(s_body, n0, pc, stops[j] as int)); assert(s_jump.instructions@[stops[j] as int] == s_body.instructions@[stops[j] as int]); }  assert(consts_syms_kept(*old(self), *self)) by { assert(consts_syms_kept(*old(self), s0)); assert(consts_syms_kept(s0, s_cond)); assert(consts_syms_kept(s_cond, s_pre)); assert(consts_syms_kept(s_pre, s_body)); assert(consts_syms_kept(s_body, s_jump)); } }
+//@LOOP 1 invariant __v@ == stops, consts_syms_kept(*old(self), *self), n0 == old(self).instructions@.len(), while_log(*old(self), log_after_body, pc, **condition, body@), self.instructions@.len() == len_final, len_final <= 0xFFFF, same_loops(*self, *old(self)), self.log@ == log_after_body, self.last_instruction == Some(OpCode::Jump), is_prefix(old(self).instructions@, self.instructions@), n0 < pc, pc + 4 <= len_final - 3, self.instructions@[n0] == opcode_byte(OpCode::Null), self.instructions@[pc] == byte_jif(), u16_at(self.instructions@, pc + 1) == len_final, self.instructions@[pc + 3] == opcode_byte(OpCode::Pop), self.instructions@[len_final - 3] == byte_jump(), u16_at(self.instructions@, len_final - 2) == n0 + 1, forall|j: int| 0 <= j < stops.len() ==> stop_final(*self, n0, pc, len_final, #[trigger] stops[j] as int), forall|j: int, k: int| 0 <= j < k < stops.len() ==> #[trigger] stops[j] + 3 <= #[trigger] stops[k], forall|j: int| 0 <= j < __it.index@ ==> u16_at(self.instructions@, #[trigger] stops[j] as int + 1) == len_final,
 //@ARM file=compiler.rs fn=compile_expression impl=Compiler arm="Expr::While" rules="R1;R4;R13[ip in ctx.break_instructions]"
         proof {
             self.log = Ghost(self.log@.push(LogEntry { what: LogWhat::Stops(stops), start: n0, end: len_final, depth: 0, contexts: 0 }));
@@ -212,6 +238,8 @@ impl Compiler {
             assert forall|j: int| 0 <= j < stops.len() implies n0 + 1 <= #[trigger] stops[j] && stops[j] + 3 <= code.len() - 3 && code[stops[j] as int] == byte_jump() && u16_at(code, stops[j] as int + 1) == code.len() by {
                 assert(stop_final(*self, n0, pc, len_final, stops[j] as int));
             }
+            // the arm meets the generator contract it assumes of its callees
+            lemma_gen_post_closed_loop(*old(self), *self);
         }
         Ok(())
     }
